@@ -135,7 +135,25 @@ fn parse(h: &Value, lineno: usize, vseed: u64, cache: &mut HashMap<Vec<bool>, u6
                     setup_goal.push(Scripted::Point(g));
                 }
             }
-            "solve" => calls.push(Call::Solve(c["t"].as_u64().unwrap_or(h["solve_t"].as_u64().unwrap_or(3)))),
+            "solve" => {
+                let t = c["t"].as_u64().unwrap_or(h["solve_t"].as_u64().unwrap_or(3));
+                // i = 1: a time limit that runs out during the call
+                if c.get("i").and_then(|x| x.as_u64()) == Some(1) {
+                    calls.push(Call::SolveTicking(0))
+                } else {
+                    calls.push(Call::Solve(t))
+                }
+            }
+            "setparams" => {
+                let a = &h["alt"];
+                let b = match a["bias"].as_str().unwrap_or("p") {
+                    "0" => 0.0,
+                    "1" => 1.0,
+                    _ => 0.5,
+                };
+                calls.push(Call::SetParams(Params { maxd: a["maxd"].as_i64().unwrap_or(1) as f64, bias: b,
+                                                    radius: a["rad2"].as_i64().unwrap_or(0) as f64 / 2.0, build_ticks, seed: None }));
+            }
             "construct" => calls.push(Call::Construct),
             "setpd" => calls.push(Call::SetPd((c["i"].as_u64().unwrap() as usize - 1) * nw)),
             "it" | "ps" => {
